@@ -583,7 +583,11 @@ def comprehension(ex, st: State, node):
             continue
         items = concrete_items(ex, s, it)
         if items is None:
-            raise Unsupported('comprehension over symbolic-length iterable')
+            r = map_comprehension(ex, s, it, node, gen)
+            if r is None:
+                raise Unsupported('comprehension over symbolic-length iterable')
+            outs.append((s, r))
+            continue
         saved = dict(s.locals)
         cur = [(s, [])]
         for item in items:
@@ -639,6 +643,30 @@ def comprehension(ex, st: State, node):
             else:
                 outs.append((s1, s1.new_list(acc)))
     return outs
+
+
+def map_comprehension(ex, st: State, it: V, node, gen):
+    """[f(x) for x in seq] with f registered as a pure map function (ctx.map_functions: name -> z3 Val->Val)."""
+    if gen.ifs or not isinstance(node, ast.ListComp) or not isinstance(gen.target, ast.Name):
+        return None
+    elt = node.elt
+    mf = getattr(ex.ctx, 'map_functions', {})
+    if not (isinstance(elt, ast.Call) and len(elt.args) == 1 and isinstance(elt.args[0], ast.Name)
+            and elt.args[0].id == gen.target.id and not elt.keywords):
+        return None
+    fname = ast.unparse(elt.func)
+    if fname not in mf:
+        return None
+    seq, n, elem = iter_seq(ex, st, it)
+    if seq is None:
+        return None
+    r = st.alloc('list')
+    rs = fresh(SeqVal, 'mapped')
+    j = z3.Int('j!map')
+    st.assume(z3.Length(rs) == z3.Length(seq))
+    st.assume(z3.ForAll([j], z3.Implies(z3.And(j >= 0, j < z3.Length(seq)), rs[j] == mf[fname](seq[j]))))
+    st.set_list_seq(r, rs)
+    return r
 
 
 def dict_comprehension(ex, st: State, node):
